@@ -352,7 +352,8 @@ pub(crate) fn extract_code_block_start(line: &str) -> Option<(&str, &str, &str)>
     }
 
     let mut language_start = None;
-    for (index, ch) in line.chars().enumerate() {
+    // byte offsets, not character counts: the offsets are used to slice the line
+    for (index, ch) in line.char_indices() {
         if let Some(language_start) = language_start {
             if ch == '{' {
                 return Some((
